@@ -27,6 +27,11 @@ def base_specs():
     specs += lookuptasks.specs()
     specs += [("props.c13", "RandomTask", v) for v in (("DE", 1, ""), ("PL", 1, "branch_code"), ("NO", 0, ""), ("GB", 1, ""))]
     specs += [("props.c11", "DecomposeTask", ("BR",)), ("props.c02", "FromBbanTask", ("MT",))]
+    # countries whose table entry lacks optional keys (no published positions): reads with defaults must stay reads
+    from props.ibantasks import table
+    bare = [cc for cc in sorted(table()) if "positions" not in table()[cc]][:2]
+    specs += [("props.c11", "DecomposeTask", (cc,)) for cc in bare]
+    specs += [("props.c13", "RandomTask", (cc, 0, "")) for cc in bare[:1]]
     return specs
 
 
